@@ -328,3 +328,31 @@ PROPS["C20"] = dict(
     technique="exhaustive single-fault enumeration (i-th allocation fails) on the real code in forked children with fate classification",
     assumptions=["--wrap interposition sees every heap request of m4ri", "fork per injected fault; ASan/UBSan on in the child"],
 )
+
+def _c14_runs(tier):
+    thorough = tier == "thorough"
+    rs = []
+    def fsx(cfg, args, group):
+        return Run(cfg, "fsx/allocmc.c", args, group=group, kind="fsx", common=["harness/alloc_wrap.c"])
+    # scaled caches (hooks H1/H2): eviction, slot reuse, round-robin index, header-block spill and unlink reachable at small depth
+    if thorough:
+        rs.append(fsx(C(defs=("M4RI_VERIF_MMC_NBLOCKS=2", "M4RI_VERIF_MZD_T_CACHE_MAX=3"), **MIN), ["--depth=7", "--starts=0,62,63,64,126,127,128,130,191,192,193", "--maxlive=4", "--setbits=25", "--both-teardowns=1"], "scaled-N2"))
+        rs.append(fsx(C(defs=("M4RI_VERIF_MMC_NBLOCKS=3", "M4RI_VERIF_MZD_T_CACHE_MAX=2"), **MIN), ["--depth=7", "--starts=0,63,64,127,128,129", "--maxlive=5", "--setbits=25"], "scaled-N3"))
+        rs.append(fsx(C(**MIN), ["--depth=6", "--starts=0,64,1023,1024,1025", "--maxlive=4", "--setbits=24"], "real-constants"))
+        rs.append(fsx(C(), ["--depth=5", "--starts=0,64", "--maxlive=4", "--setbits=22"], "host"))
+        rs.append(fsx(C(thread_safe=1), ["--depth=5", "--starts=0,3", "--maxlive=4", "--setbits=22"], "thread-safe"))
+    else:
+        rs.append(fsx(C(defs=("M4RI_VERIF_MMC_NBLOCKS=2", "M4RI_VERIF_MZD_T_CACHE_MAX=3"), **MIN), ["--depth=5", "--starts=0,63,127,128,130", "--maxlive=3", "--setbits=22"], "scaled-N2"))
+        rs.append(fsx(C(defs=("M4RI_VERIF_MMC_NBLOCKS=3", "M4RI_VERIF_MZD_T_CACHE_MAX=2"), **MIN), ["--depth=5", "--starts=0,64,128", "--maxlive=4", "--setbits=22", "--scripted=0"], "scaled-N3"))
+        rs.append(fsx(C(**MIN), ["--depth=3", "--starts=0,1024", "--maxlive=3", "--setbits=22"], "real-constants"))
+        rs.append(fsx(C(thread_safe=1), ["--depth=4", "--starts=0,3", "--maxlive=3", "--setbits=22", "--scripted=0"], "thread-safe"))
+    return rs
+
+PROPS["C14"] = dict(
+    level="model_checking", runs=_c14_runs, engine="FSX",
+    rule="explicit-state search over the REAL allocator: alphabet {INIT(size class) for 6 classes: 16 B, 32 B, two zero-area shapes, exactly at and just above the block-cache threshold; WIN(h) on every live owned matrix; FREE(h) of every live handle in any order (parents before their windows included); FREEBLOCK(b) = free all start-state headers of header block b}, at most 4-5 live handles beyond the start state, depth bound D (5 quick / 7 thorough) from start states with up to 11 different numbers of live headers in {0,62,63,64,126,127,128,130,191,192,193}; block cache scaled to 2 or 3 slots and header cache to 2-3 blocks through hooks H1/H2 so that eviction, slot reuse, the round-robin index, header-block allocation, unlink and the plain-malloc regime are all reachable; the unhooked constants (16/16) are searched to a smaller depth and driven by scripted families (17/18/33 distinct cacheable sizes freed in every rotation and LIFO/FIFO; 1023..1094 live headers freed in 6 orders); a state is a live process, its canonical key = block-cache slot sizes in slot order + eviction index + header-block 'used' masks in list order + position of current_cache + live handles (header slot, kind, class, parent); visited table keeps the best remaining depth; invariants on every state; on every new state two teardown orders + m4ri_fini() must leave no allocation",
+    level_text="Explicit-state model checking of the allocation machinery on the implementation itself: every reachable state of the real block cache / header cache within the depth bound is visited (fork snapshots make the C heap a copyable state), a harness-side model of the block cache is compared with the real cache array on every transition, and the invariants of the statement (fresh matrices zero and disjoint, live matrices intact, windows never release parent storage, nothing retained after finalisation, ASan silent) are evaluated in every state.",
+    level_note="Bounded depth and handle count; cache capacities scaled down by guarded hooks for the deep search (the real constants are covered to depth 4-6 and by scripted families). The canonical key ignores addresses; two states with equal keys have equal futures because the allocator's decisions depend only on sizes, masks and indices (the conformance check on every transition backs this).",
+    technique="explicit-state model checking on the real code (fork-snapshot state space exploration with canonical state hashing, model conformance checked on every transition)",
+    assumptions=["fork() preserves the complete allocator state", "guarded hooks M4RI_VERIF_MMC_NBLOCKS / M4RI_VERIF_MZD_T_CACHE_MAX only change the two capacity constants"],
+)
